@@ -76,6 +76,7 @@ func WithTimeout(parent context.Context, d time.Duration) (context.Context, cont
 	c.Deadline0 = true
 	c.HardCap = DriverHardCap
 	DriverCtx = c
+	SetCurrent(c)
 	return c, func() { c.Cancel() }
 }
 
